@@ -155,6 +155,7 @@ func buildable0(t reflect.Type) bool {
 type Opts struct {
 	Budget     int  // remaining node budget; when exhausted only minimal shapes are produced
 	BigLists   bool // allow 127/128/255/256/300-element lists
+	MinList    int  // if > 0: lists nested inside information elements have at least this many elements
 	BigString  int  // upper cap for unconstrained / large strings (octets)
 	NoOptional bool
 	Force      int64 // fragmentation sweep: give one string this length
@@ -396,6 +397,15 @@ func (g *G) Value(t reflect.Type, p P, depth int) reflect.Value {
 				hi = ub
 			}
 			n = rapid.Int64Range(lb, hi).Draw(g.T, "ln")
+			if g.O.MinList > 0 && depth > 4 {
+				// list-heavy values: every list below the IE container has at least MinList elements (if its bound allows)
+				if m := int64(g.O.MinList); n < m {
+					n = m
+					if n > ub {
+						n = ub
+					}
+				}
+			}
 			if g.O.BigLists && g.budget > 100 && depth <= 8 && g.intn(0, 11, "lbig") == 0 {
 				var c []int64
 				for _, x := range []int64{127, 128, 129, 255, 256, 257, 300, 1023, 1024, 1025, 1500, 2048, 2049, ub} {
